@@ -74,6 +74,8 @@ func (h *Handler) handleDiscover(p packet.DHCP4, options packet.DHCP4Options) (d
 	case StateDiscover:
 		if !bytes.Equal(lease.XID, p.XId()) { // new discover packet
 			lease.IPOffer = netip.Addr{}
+		} else if host := h.session.FindIP(lease.IPOffer); host != nil && !bytes.Equal(host.MACEntry.MAC, lease.Addr.MAC) {
+			lease.IPOffer = netip.Addr{} // another device took the address since the offer: do not repeat the offer
 		}
 	}
 
